@@ -147,7 +147,7 @@ func leaderOf(p qbftsim.Prog, round specqbft.Round) uint64 {
 
 func genMonitor(t *rapid.T) qbftsim.Prog {
 	v := true
-	return qbftsim.Gen(t, qbftsim.GenOpts{Ns: []int{4, 4, 7}, MaxOps: 40, VerifyOnly: &v})
+	return qbftsim.Gen(t, qbftsim.GenOpts{Ns: []int{4, 4, 7}, MaxOps: 40, VerifyOnly: &v, NetFaults: true})
 }
 
 func TestPropCertMonitor(t *testing.T) {
